@@ -156,6 +156,7 @@ type c02Py struct {
 	dev     bool
 	devN    int
 	local   string // "" or one segment
+	localN  int    // value of an all-digit segment
 	spelled string
 }
 
@@ -226,9 +227,19 @@ func c02BuildPy(tag string) *c02Py {
 		p.local = string([]byte{b})
 		s += "+" + p.local
 	case 2: // one numeric segment
-		_, d := c02Digit(tag + ".local")
-		p.local = d
+		n, d := c02Digit(tag + ".local")
+		p.local, p.localN = d, n
 		s += "+" + d
+	case 3: // a numeric segment spelled with a leading zero: the same number
+		n, d := c02Digit(tag + ".local")
+		p.local, p.localN = "0"+d, n
+		s += "+0" + d
+	case 4: // a two-digit numeric segment
+		n1, d1 := c02Digit(tag + ".local1")
+		n0, d0 := c02Digit(tag + ".local0")
+		vAssume(n1 >= 1)
+		p.local, p.localN = d1+d0, n1*10+n0
+		s += "+" + d1 + d0
 	}
 	p.spelled = s
 	return p
@@ -246,6 +257,9 @@ func c02CmpPy(a, b *c02Py) int {
 	if la && lb {
 		da, db := c02AllDigits(a.local), c02AllDigits(b.local)
 		ca, cb := int(a.local[0]), int(b.local[0])
+		if da && db {
+			ca, cb = a.localN, b.localN // all-digit segments are integers: 01 is 1
+		}
 		res = vIteInt(vAnd(da, vNot(db)), 1, vIteInt(vAnd(vNot(da), db), -1, vIteInt(ca < cb, -1, vIteInt(ca > cb, 1, 0))))
 	} else if la {
 		res = 1
